@@ -473,6 +473,12 @@ func Update(ctx context.Context, scope *ReferenceScope, query parser.UpdateQuery
 		if err = viewsToUpdate[viewKey].Header.Update(tableName.Literal, nil); err != nil {
 			return nil, nil, err
 		}
+		// Aliases of one table update one record set.
+		for k, v := range viewsToUpdate {
+			if k != viewKey && v.FileInfo.IdentifiedPath() == viewsToUpdate[viewKey].FileInfo.IdentifiedPath() {
+				viewsToUpdate[viewKey].RecordSet = v.RecordSet
+			}
+		}
 	}
 
 	updatesList := make(map[string]map[int]*UintPool)
@@ -698,7 +704,15 @@ func Delete(ctx context.Context, scope *ReferenceScope, query parser.DeleteQuery
 	for k, v := range viewsToDelete {
 		records := make(RecordSet, 0, v.RecordLen()-len(deletedIndices[k]))
 		for i, record := range v.RecordSet {
-			if !deletedIndices[k][i] {
+			deleted := false
+			// Aliases of one table delete from one record set.
+			for k2, v2 := range viewsToDelete {
+				if deletedIndices[k2][i] && v2.FileInfo.IdentifiedPath() == v.FileInfo.IdentifiedPath() {
+					deleted = true
+					break
+				}
+			}
+			if !deleted {
 				records = append(records, record)
 			}
 		}
